@@ -396,7 +396,7 @@ func (h *Session) Notify(frame Frame) {
 		if !frame.SrcAddr.IP.IsValid() {
 			return
 		}
-		frame.Host = h.findIP(frame.SrcAddr.IP)
+		frame.Host = h.FindIP(frame.SrcAddr.IP) // locks the session: the table is a map
 		if frame.Host == nil {
 			return
 		}
